@@ -148,7 +148,15 @@ impl fmt::Display for KNumber {
 
 impl Hash for KNumber {
     fn hash<H: Hasher>(&self, state: &mut H) {
-        state.write_u64(self.to_bits())
+        // Numbers that compare as equal need to produce the same hash (`1 == 1.0`),
+        // so floats that represent an integer are hashed as that integer.
+        let bits = match self {
+            Self::F64(n) if n.fract() == 0.0 && *n >= i64::MIN as f64 && *n < i64::MAX as f64 => {
+                (*n as i64) as u64
+            }
+            _ => self.to_bits(),
+        };
+        state.write_u64(bits)
     }
 }
 
